@@ -264,6 +264,67 @@ func ptyCases(e *env) []func() {
 			}
 		}
 	}
+	// a passphrase-protected identities file of several chunks, tampered after
+	// its first chunk: the tool decrypts it internally, so payload integrity
+	// (C02) must hold on that route too — `age -d -i keys.age` must fail and
+	// leave -o untouched
+	for _, dmg := range []string{"none", "flip-chunk1", "flip-last-byte", "cut-at-chunk-boundary", "cut-last-byte", "trailing-bytes", "drop-chunk1"} {
+		dmg := dmg
+		out = append(out, func() {
+			d := e.dir()
+			defer e.done(d)
+			var idPlain bytes.Buffer
+			idPlain.WriteString(keys.NewX("X1").SecretStr + "\n")
+			for idPlain.Len() < 150000 {
+				idPlain.WriteString("# padding comment line to make this identities file span several payload chunks\n")
+			}
+			fk := mon.DetBytes("c15-bigid-fk", 16)
+			file := refage.BuildFile(fk, []refage.Stanza{refage.ScryptWrap(fk, "idpass", mon.DetBytes("c15-bigid-salt", 16), 10)}, mon.DetBytes("c15-bigid-nonce", 16), idPlain.Bytes())
+			he := refage.HeaderEnd(file)
+			c1 := he + 16 + refage.EncChunkSize
+			switch dmg {
+			case "flip-chunk1":
+				file[c1+100] ^= 1
+			case "flip-last-byte":
+				file[len(file)-1] ^= 1
+			case "cut-at-chunk-boundary":
+				file = file[:c1]
+			case "cut-last-byte":
+				file = file[:len(file)-1]
+			case "trailing-bytes":
+				file = append(file, "xyz"...)
+			case "drop-chunk1":
+				file = append(append([]byte(nil), file[:c1]...), file[c1+refage.EncChunkSize:]...)
+			}
+			os.WriteFile(filepath.Join(d, "big.key.age"), file, 0o600)
+			pt := []byte("payload for the big identity file case")
+			os.WriteFile(filepath.Join(d, "in.age"), refFile("X", pt, false, "bigid"), 0o600)
+			res := cli.Run(&cli.Cmd{Argv: []string{e.age, "-d", "-i", "big.key.age", "-o", "out.bin", "in.age"}, Dir: d, TTY: true,
+				Script: []cli.TTYStep{{Expect: "Enter passphrase for identity file", Send: "idpass\n"}}})
+			desc := "decrypt with a multi-chunk passphrase-protected identities file, damage=" + dmg
+			r.Eval(1)
+			r.Distinct(desc)
+			r.Tab("pty_flows", "big-encrypted-identity")
+			if res.Err != nil {
+				r.Inconclusive("%s: %v", desc, res.Err)
+				return
+			}
+			got, statErr := os.ReadFile(filepath.Join(d, "out.bin"))
+			if dmg == "none" {
+				if res.Exit != 0 || !bytes.Equal(got, pt) {
+					r.Violate("pty-decrypt-failed:big-encrypted-identity", fmt.Sprintf("%s: %s", desc, res), nil)
+				}
+				return
+			}
+			if res.Exit == 0 {
+				r.Violate("exit0-tampered-identity-file:"+dmg, desc+": the tool used keys from a tampered passphrase-protected identities file (exit 0)", map[string]any{"damage": dmg})
+			} else if statErr == nil {
+				r.Violate("output-created-on-refusal:tampered-identity-file:"+dmg, desc+": refused, but -o was created", nil)
+			} else {
+				r.Count("tampered_identity_files_refused", 1)
+			}
+		})
+	}
 	// passphrase encryption (default work factor, ~1 s each): typed twice, mismatch, to a failing output
 	type pe struct {
 		name   string
